@@ -53,6 +53,35 @@ Theorem C11_send_fits : forall st e es,
 Proof. exact send_fits_wire. Qed.
 Print Assumptions C11_send_fits.
 
+(* With Config.GlobalFormat, Send formats the last parameter (Fmt, Model/Format.v) BEFORE it
+   splits (global_format): the bound holds for the formatted message ... *)
+Theorem C11_send_gf_fits : forall st e es,
+  se_tagov e = 0%nat -> se_source e = None -> se_params e <> [] -> is_msg_cmd (se_command e) = true ->
+  send_gf st e = Ok es -> (cmd_target_len (global_format e) <= max_event_length st)%Z ->
+  Forall (fun p =>
+    (Z.of_nat (length (event_bytes p)) <= max_event_length st)%Z \/
+    ((max_event_length st - cmd_target_len (global_format e) < 4)%Z /\
+     (Z.of_nat (length (event_bytes p)) <= cmd_target_len (global_format e) + 4)%Z)) es.
+Proof. exact send_gf_fits_wire. Qed.
+Print Assumptions C11_send_gf_fits.
+
+(* ... and the pieces are C11_shape's for the FORMATTED event: a message that Fmt turns into
+   a CTCP ({ctcp}ACTION ...{ctcp}) is split as that CTCP, every piece in its frame. *)
+Theorem C11_send_gf_shape : forall st e es, send_gf st e = Ok es ->
+  let f := global_format e in
+  es = [f] \/
+  (se_params f <> [] /\ is_msg_cmd (se_command f) = true /\
+   exists text wrap w pieces,
+     split_message text w = Ok pieces /\
+     es = List.map (fun q => with_params f (set_last (se_params f) (wrap q))) pieces /\
+     Forall (same_frame f) es /\
+     match ctcp_of f with
+     | Some c => text = Ctcp.c_text c /\ wrap = ctcp_wrap (Ctcp.c_command c) /\ w = (max_event_length st - cmd_target_len f)%Z
+     | None => text = last (se_params f) [] /\ wrap = (fun q => q) /\ w = (max_event_length st - cmd_target_len f)%Z
+     end).
+Proof. exact send_gf_shape. Qed.
+Print Assumptions C11_send_gf_shape.
+
 (* Pieces keep command, source, tags, every parameter but the last, and the CTCP frame
    with the same CTCP command; their payloads are splitMessage of the (CTCP) text. *)
 Theorem C11_shape : forall e max es, event_split e max = Ok es ->
